@@ -4,6 +4,7 @@
    cl of the reference monitor C19.Spec holds at every step of a trace. *)
 From Coq Require Import List Bool Arith ZArith.
 From Verif Require Import C19.Model C19.Spec C19.Proofs.
+Import ListNotations.
 
 (* isolation: whatever is returned for (subject, issuer) was stored for exactly that pair and the
    subject has had a session ever since; a subject counts as logged in only on such information *)
@@ -32,32 +33,22 @@ Theorem c19_logout_request_only_current_subject : forall w t0 h, spec_cl cl_requ
 Proof. exact request_holds. Qed.
 Print Assumptions c19_logout_request_only_current_subject.
 
-(* a LogoutResponse that does not answer a pending request changes nothing — outside the OPEN finding
-   classes: `guard` = no step of the trace is a trigger of class 4 (a party answers a second, moot request of
-   a logout in progress after it has already answered) or class 5 (a pass of do_logout in which an IdP
-   answered Success over SOAP ends with an exception, so that answer is not recorded) *)
-Theorem c19_response_needs_pending : forall w t0 h,
-  guard w t0 (run w t0 h) -> spec_cl cl_pending w t0 (run w t0 h).
+(* a LogoutResponse that does not answer a pending request (known InResponseTo of a logout in progress,
+   sent by the party the request went to, that party still being waited for, status Success) changes nothing *)
+Theorem c19_response_needs_pending : forall w t0 h, spec_cl cl_pending w t0 (run w t0 h).
 Proof. exact pending_holds. Qed.
 Print Assumptions c19_response_needs_pending.
 
 (* the session ends exactly when the last involved IdP has answered (front channel or SOAP) or the deadline
-   has passed — outside the open finding classes *)
-Theorem c19_session_ends_iff_last_answer_or_deadline : forall w t0 h,
-  guard w t0 (run w t0 h) -> spec_cl cl_ends w t0 (run w t0 h).
+   has passed *)
+Theorem c19_session_ends_iff_last_answer_or_deadline : forall w t0 h, spec_cl cl_ends w t0 (run w t0 h).
 Proof. exact ends_holds. Qed.
 Print Assumptions c19_session_ends_iff_last_answer_or_deadline.
 
-(* C19, whole property, for every world, start time and history outside the open finding classes *)
-Theorem c19_property : forall w t0 h, guard w t0 (run w t0 h) -> spec w t0 (run w t0 h).
-Proof. exact guarded_spec. Qed.
+(* C19, whole property, for every world, start time and history — no guard, no finding class is open *)
+Theorem c19_property : forall w t0 h, spec w t0 (run w t0 h).
+Proof. exact all_spec. Qed.
 Print Assumptions c19_property.
-
-(* sharper, unguarded: on EVERY history every step before the first trigger of an open finding class
-   satisfies every clause (this is what the correspondence's classifier relies on) *)
-Theorem c19_until_first_trigger : forall w t0 h, spec_until w t0 (run w t0 h).
-Proof. exact until_holds. Qed.
-Print Assumptions c19_until_first_trigger.
 
 (* the boolean monitor that Coq evaluates on the implementation's recorded trace is the stated property *)
 Theorem c19_spec_reflect : forall w t0 tr, spec_b w t0 tr = true <-> spec w t0 tr.
@@ -72,42 +63,48 @@ Theorem c19_spec_clauses : forall w t0 tr,
 Proof. exact spec_split. Qed.
 Print Assumptions c19_spec_clauses.
 
-(* the code as it is violates the property in the two open classes (faithful model):
-   4 a second answer of a party to a moot request of a logout in progress consumes that request (ValueError);
-   5 a Success answer over SOAP given in a pass that then raises is forgotten *)
-Theorem c19_moot_request_refuted : exists w t0 h, first_trigger w t0 (run w t0 h) = 4 /\ ~ spec w t0 (run w t0 h).
-Proof. exact moot_refuted. Qed.
-Print Assumptions c19_moot_request_refuted.
-
-Theorem c19_forgotten_soap_answer_refuted : exists w t0 h, first_trigger w t0 (run w t0 h) = 5 /\ ~ spec w t0 (run w t0 h).
-Proof. exact forgotten_refuted. Qed.
-Print Assumptions c19_forgotten_soap_answer_refuted.
-
-(* the behaviour before the fixes violated it (run_v0 party purge soap; false = that fix reverted):
+(* the behaviour before each fix violated the property: `run_v0 party purge soap early moot` is the model
+   with the named fixes in place (false = that fix reverted); each witness fails with ONLY that fix reverted:
    class 1, before 0bae05f7 a SOAP global logout did no bookkeeping;
    class 2, before de5f1fed an answer from another party than the one asked was honoured;
-   class 3, before 73294247 the answer to a request of an abandoned logout ended a new session *)
+   class 3, before 73294247 the answer to a request of an abandoned logout ended a new session;
+   class 4, before e58d2614 a second, moot request to a party that had answered stayed pending and its answer
+            was consumed (ValueError);
+   class 5, before 10d8560b a Success answer over SOAP given in a pass that then raised was forgotten *)
 Theorem c19_soap_v0_refuted : exists w t0 h,
-  first_any_trigger w t0 (run_v0 true true false w t0 h) = 1 /\ ~ spec w t0 (run_v0 true true false w t0 h).
+  first_any_trigger w t0 (run_v0 true true false true true w t0 h) = 1 /\ ~ spec w t0 (run_v0 true true false true true w t0 h).
 Proof. exact soap_v0_refuted. Qed.
 Print Assumptions c19_soap_v0_refuted.
 
 Theorem c19_wrong_party_v0_refuted : exists w t0 h,
-  first_any_trigger w t0 (run_v0 false true true w t0 h) = 2 /\ ~ spec w t0 (run_v0 false true true w t0 h).
+  first_any_trigger w t0 (run_v0 false true true true true w t0 h) = 2 /\ ~ spec w t0 (run_v0 false true true true true w t0 h).
 Proof. exact wrong_party_v0_refuted. Qed.
 Print Assumptions c19_wrong_party_v0_refuted.
 
 Theorem c19_stale_answer_v0_refuted : exists w t0 h,
-  first_any_trigger w t0 (run_v0 true false true w t0 h) = 3 /\ ~ spec w t0 (run_v0 true false true w t0 h).
+  first_any_trigger w t0 (run_v0 true false true true true w t0 h) = 3 /\ ~ spec w t0 (run_v0 true false true true true w t0 h).
 Proof. exact stale_v0_refuted. Qed.
 Print Assumptions c19_stale_answer_v0_refuted.
 
+Theorem c19_moot_request_v0_refuted : exists w t0 h,
+  first_any_trigger w t0 (run_v0 true true true true false w t0 h) = 4 /\ ~ spec w t0 (run_v0 true true true true false w t0 h).
+Proof. exact moot_v0_refuted. Qed.
+Print Assumptions c19_moot_request_v0_refuted.
+
+Theorem c19_forgotten_soap_answer_v0_refuted : exists w t0 h,
+  first_any_trigger w t0 (run_v0 true true true false true w t0 h) = 5 /\ ~ spec w t0 (run_v0 true true true false true w t0 h).
+Proof. exact forgotten_v0_refuted. Qed.
+Print Assumptions c19_forgotten_soap_answer_v0_refuted.
+
 (* run_v0 with all fixes is the model *)
-Theorem c19_v0_fixed_is_model : forall w t0 h, run_v0 true true true w t0 h = run w t0 h.
+Theorem c19_v0_fixed_is_model : forall w t0 h, run_v0 true true true true true w t0 h = run w t0 h.
 Proof. exact run_v0_fixed. Qed.
 Print Assumptions c19_v0_fixed_is_model.
 
-(* the guard is satisfiable by a complete two-IdP logout that ends the session (non-vacuity) *)
-Theorem c19_guard_satisfiable : guard w_front 1000 (run w_front 1000 h_flow) /\ spec w_front 1000 (run w_front 1000 h_flow).
-Proof. exact (conj flow_guard flow_spec). Qed.
-Print Assumptions c19_guard_satisfiable.
+(* non-vacuity: a mixed SOAP / front-channel logout completes (IdP 1 answers over SOAP at once, the answer
+   of IdP 0 then ends the session) *)
+Theorem c19_mixed_logout_completes :
+  map (fun x => snd (fst x)) (run w_mixed2 1000 h_mixed)
+  = [OUnit; OUnit; OSent [SentPending 0 REDIRECT 0; SentSoap 1]; OIdentity [1; 2] []; ODone; OIdentity [] []].
+Proof. exact mixed_outputs. Qed.
+Print Assumptions c19_mixed_logout_completes.
